@@ -53,9 +53,9 @@ def replay_firstlen(L, newmax=None):
     return bad, str(info), 'C17/maxlen'
 
 
-def replay_bit(bit, bit1=True):
+def replay_bit(bit, bit1=True, others=(2,)):
     from cardutil import mciipm
-    bm = bytearray(ref.ref_bitmap([2, bit]))
+    bm = bytearray(ref.ref_bitmap(sorted(set(list(others) + [bit]))))
     if not bit1:
         bm[0] &= 0x7f
     data = struct.pack('>I', 30) + b'1240' + bytes(bm) + b'0512345' + b' ' * 40
